@@ -528,6 +528,11 @@ fn gen_c16_async(base_seed: u64, batch: &str, run: u64, rng: &mut Rng) -> Scenar
     if rng.chance(2, 3) {
         clauses.push(wild(M::Ag, if rng.chance(1, 2) { Resp::Returns } else { Resp::AnswersArc(Prog::default()) }, Quant::Unq));
     }
+    if rng.chance(2, 3) {
+        // the `-> impl Future` spelling, sometimes with an exact count so that evaluations are visible
+        let quant = *rng.pick(&[Quant::Unq, Quant::Unq, Quant::N(2), Quant::AtLeast(1)]);
+        clauses.push(wild(M::Ai, if rng.chance(1, 2) { Resp::Returns } else { Resp::AnswersArc(Prog::default()) }, quant));
+    }
     if !partial || rng.chance(1, 2) {
         clauses.push(wild(M::At, Resp::Unmocked, Quant::Unq));
     }
@@ -544,7 +549,7 @@ fn gen_c16_async(base_seed: u64, batch: &str, run: u64, rng: &mut Rng) -> Scenar
     let mut ops = vec![];
     for _ in 0..rng.range(1, 3) {
         let n = rng.range(1, 4);
-        let tasks: Vec<(M, u8)> = (0..n).map(|_| (*rng.pick(&[M::Af, M::Af, M::At, M::Ag]), rng.below(4) as u8)).collect();
+        let tasks: Vec<(M, u8)> = (0..n).map(|_| (*rng.pick(&[M::Af, M::Af, M::At, M::Ag, M::Ai, M::Ai]), rng.below(4) as u8)).collect();
         let mut plan = vec![];
         for _ in 0..rng.usize(8) {
             let i = rng.usize(n) as u8;
@@ -552,7 +557,7 @@ fn gen_c16_async(base_seed: u64, batch: &str, run: u64, rng: &mut Rng) -> Scenar
         }
         ops.push(Op::AsyncGroup { slot: 0, tasks, plan });
         if rng.chance(1, 3) {
-            ops.push(Op::Call { slot: 0, m: *rng.pick(&[M::Af, M::At, M::Ag]), x: rng.below(4) as u8, y: 0, catch: true, fault: None, keep: false });
+            ops.push(Op::Call { slot: 0, m: *rng.pick(&[M::Af, M::At, M::Ag, M::Ai]), x: rng.below(4) as u8, y: 0, catch: true, fault: None, keep: false });
         }
     }
     ops.push(Op::Verify { slot: 0 });
@@ -683,7 +688,7 @@ pub fn check_c16(scn: &Scenario) -> Checked {
             }
         }
         // each polled future evaluated its call exactly once: per method, matches == futures polled
-        for m in [M::Af, M::Ag, M::At] {
+        for m in [M::Af, M::Ag, M::At, M::Ai] {
             if !flat.mentioned(m) {
                 continue;
             }
@@ -716,6 +721,27 @@ pub fn check_c16(scn: &Scenario) -> Checked {
                     format!("{:?}:executor", t.m),
                     format!("future of {:?}({}) was polled {} time(s): the real function body should have run {} time(s), ran {}", t.m, t.x, t.polls, expected, runs),
                 ));
+            }
+        }
+        // a future that is dropped before it completes is not an error: without a mock-induced panic
+        // nothing is recorded and the final verdict follows the counts
+        let any_mock_panic = res.log.calls.iter().any(|c| matches!(c.outcome, Some(Outcome::MockPanic(_))));
+        if !any_mock_panic {
+            for (o, op) in final_ops(scn, &res) {
+                let Some(pre) = &o.pre else { continue };
+                if !crate::oracle::ordinary_verdict_expected(scn, &res.log, o) {
+                    continue;
+                }
+                if !pre.errors.is_empty() {
+                    violations.push(v("C16", "cancelled-future-is-no-error", "recorded", format!("no call ended in a mock-induced panic, yet errors are recorded: {:?}", pre.errors)));
+                    continue;
+                }
+                let (p, m) = crate::oracle::unmet(&flat, pre);
+                let expect_fail = !p.is_empty() || !m.is_empty();
+                let failed = matches!(o.result, OpResult::Panicked(_) | OpResult::ExitCode(false));
+                if expect_fail != failed {
+                    violations.push(v("C16", "verdict-follows-counts", format!("{:?}", std::mem::discriminant(op)), format!("after polled, cancelled and completed futures the counts are {:?}: verification should {}, but {:?}", pre.counts, if expect_fail { "fail" } else { "pass" }, o.result)));
+                }
             }
         }
         return Checked { violations, stats, harness_error: None };
